@@ -153,11 +153,13 @@ impl<F: FftField> DensePolynomial<F> {
     /// Multiply `self` by the vanishing polynomial for the domain `domain`.
     /// Returns the result of the multiplication.
     pub fn mul_by_vanishing_poly<D: EvaluationDomain<F>>(&self, domain: D) -> Self {
+        // The vanishing polynomial of a (coset) domain is `x^size - offset^size`.
+        let offset_pow_size = domain.coset_offset_pow_size();
         let mut shifted = vec![F::zero(); domain.size()];
         shifted.extend_from_slice(&self.coeffs);
         cfg_iter_mut!(shifted)
             .zip(&self.coeffs)
-            .for_each(|(s, c)| *s -= c);
+            .for_each(|(s, c)| *s -= offset_pow_size * c);
         Self::from_coefficients_vec(shifted)
     }
 
@@ -178,11 +180,16 @@ impl<F: FftField> DensePolynomial<F> {
             //    during the division by `x^domain_size - 1`, some of `self.coeffs[domain_size..]` will be updated as well
             //    which can be computed using the following algorithm.
             //
+            // For a coset domain the divisor is `x^domain_size - h` with
+            // `h = offset^domain_size`, and the i-th folded chunk is weighted by `h^i`.
+            let offset_pow_size = domain.coset_offset_pow_size();
             let mut quotient_vec = self.coeffs[domain_size..].to_vec();
+            let mut offset_power = F::one();
             for i in 1..(self.len() / domain_size) {
+                offset_power *= offset_pow_size;
                 cfg_iter_mut!(quotient_vec)
                     .zip(&self.coeffs[domain_size * (i + 1)..])
-                    .for_each(|(s, c)| *s += c);
+                    .for_each(|(s, c)| *s += offset_power * c);
             }
 
             // Compute the remainder
@@ -200,7 +207,7 @@ impl<F: FftField> DensePolynomial<F> {
             let mut remainder_vec = self.coeffs[0..domain_size].to_vec();
             cfg_iter_mut!(remainder_vec)
                 .zip(&quotient_vec)
-                .for_each(|(s, c)| *s += c);
+                .for_each(|(s, c)| *s += offset_pow_size * c);
 
             let quotient = Self::from_coefficients_vec(quotient_vec);
             let remainder = Self::from_coefficients_vec(remainder_vec);
